@@ -263,8 +263,9 @@ def run(ctx):
     # ---------------- R02.5 position order
     me = prog.fn1(MB + 'encode', sig='(char *)')
     ctx.saw(me)
-    fr = [n for n in me.all_nodes() if n.k == 'CXXForRangeStmt']
-    okr = len(fr) == 1 and q.refers_to_member(fr[0].child('range'), MB + '_pos')
+    trav = q.ordered_traversals(me, MB + '_pos')
+    fr = [t[0] for t in trav]
+    okr = len(trav) == 1 and len([n for n in me.all_nodes() if n.k in ('CXXForRangeStmt', 'ForStmt', 'WhileStmt', 'DoStmt')]) == 1
     ctx.check(okr, 'R02.5', MB + 'encode#iterate-pos', me.loc, 'fields are emitted by iterating the position index _pos')
     pos_type_rule(ctx, prog, 'R02.5')
     adds = [g for g in prog.all_functions() if g.qp in (MB + 'add_field', MB + 'add_field_decoder') and g.tmpl != 'pattern']
@@ -293,6 +294,8 @@ def run(ctx):
     fr2 = [n for n in eg.all_nodes() if n.k == 'CXXForRangeStmt']
     in_order = len(fr2) == 1 and any(x.k == 'MemberExpr' and x.decl['n'] == '_msgs' for x in fr2[0].child('range').walk())
     if not in_order:
+        in_order = len(q.ordered_traversals(eg, 'FIX8::GroupBase::_msgs')) == 1
+    if not in_order:
         # the same traversal written with the algorithm: std::for_each(_msgs.begin(), _msgs.end(), ...)
         fe = [c for c in eg.calls() if c.callee_qp == 'std::for_each' and len(c.args) >= 3]
         in_order = len(fe) == 1 and all(any(x.k == 'MemberExpr' and x.decl['n'] == '_msgs' for x in a.walk()) for a in fe[0].args[:2]) and \
@@ -300,7 +303,8 @@ def run(ctx):
             any(x.is_call and x.callee is not None and x.callee.get('n') in ('end', 'cend') for x in fe[0].args[1].walk())
     ctx.check(in_order, 'R02.5', MB + 'encode_group#in-order', eg.loc, 'group elements are rendered in container order')
     unk = [c for c in me.calls() if c.callee is not None and c.callee.get('n') == 'copy' and c.obj is not None and q.refers_to_member(c.obj, MB + '_unknown')]
-    ctx.check(len(unk) == 1 and me.cfg.dominates(me.cfg.block_in[me.cfg.V[me.cfg.vertex_of(fr[0].child('range'))].block] if fr else 0, me.cfg.vertex_of(unk[0])), 'R02.5',
+    ctx.check(len(unk) == 1 and bool(trav) and me.cfg.dominates(me.cfg.block_in[me.cfg.V[me.cfg.vertex_of(trav[0][1])].block], me.cfg.vertex_of(unk[0])) and
+              not any(a == trav[0][0] for a in unk[0].ancestors()), 'R02.5',
               MB + 'encode#unknown-last', me.loc, 'pass-through bytes follow the positioned fields')
     string_overload_rule(ctx, prog, 'R02.7')
     copy_position_rule(ctx, prog, 'R02.8')
